@@ -452,12 +452,12 @@ Theorem c19_append_prepend : forall s t,
 Proof. exact append_prepend_app. Qed.
 Print Assumptions c19_append_prepend.
 
-(** [truncate]: unchanged when shorter than [num]; else the first
+(** [truncate]: unchanged when it has at most [num] characters; else the first
     max(0, num - |end|) characters followed by [end], never longer than
     max(num, |end|). *)
 Theorem c19_truncate_spec : forall val num e,
-  ((Z.of_nat (length val) < num)%Z -> truncate_chars val num e = val) /\
-  ((num <= Z.of_nat (length val))%Z ->
+  ((Z.of_nat (length val) <= num)%Z -> truncate_chars val num e = val) /\
+  ((num < Z.of_nat (length val))%Z ->
      truncate_chars val num e = firstn (Z.to_nat (Z.max 0 (num - Z.of_nat (length e)))) val ++ e /\
      (Z.of_nat (length (truncate_chars val num e)) <= Z.max num (Z.of_nat (length e)))%Z).
 Proof. exact truncate_spec. Qed.
@@ -466,7 +466,7 @@ Print Assumptions c19_truncate_spec.
 (** The code before the fix violated the length bound ("hello" | truncate: 2). *)
 Theorem c19_truncate_unfixed_refuted :
   exists val num e,
-    (num <= Z.of_nat (length val))%Z /\
+    (num < Z.of_nat (length val))%Z /\
     (Z.max num (Z.of_nat (length e)) < Z.of_nat (length (truncate_chars_unfixed val num e)))%Z.
 Proof. exact truncate_unfixed_refuted. Qed.
 Print Assumptions c19_truncate_unfixed_refuted.
@@ -480,8 +480,8 @@ Print Assumptions c19_truncate_fix_conservative.
 Theorem c19_truncatewords_spec : forall v num e,
   let n := if (num <=? 0)%Z then 1%Z else num in
   (n < MAX_TRUNC_WORDS)%Z ->
-  ((Z.of_nat (length (py_words v)) < n)%Z -> truncatewords_str v num e = join_str [32%N] (py_words v)) /\
-  ((n <= Z.of_nat (length (py_words v)))%Z ->
+  ((Z.of_nat (length (py_words v)) <= n)%Z -> truncatewords_str v num e = join_str [32%N] (py_words v)) /\
+  ((n < Z.of_nat (length (py_words v)))%Z ->
      truncatewords_str v num e = join_str [32%N] (firstn (Z.to_nat n) (py_words v)) ++ e).
 Proof. exact truncatewords_spec. Qed.
 Print Assumptions c19_truncatewords_spec.
@@ -579,3 +579,22 @@ Theorem c19_sort_key_missing_last_refuted :
     sort_key left (FStr k) = PyExc TypeError.
 Proof. exact sort_key_missing_last_refuted. Qed.
 Print Assumptions c19_sort_key_missing_last_refuted.
+
+(** ** round (known finding round-half-even-ties)
+    [round] of a float goes to a nearest integer ... *)
+Theorem c19_round_is_nearest : forall m e,
+  (e < 0)%Z -> let p := (10 ^ (- e))%Z in (2 * Z.abs (m - dec_round_int m e * p) <= p)%Z.
+Proof. exact round_is_nearest. Qed.
+Print Assumptions c19_round_is_nearest.
+
+(** ... which is the half-away-from-zero rounding of Liquid except at exact halves ... *)
+Theorem c19_round_half_away_partial : forall m e,
+  (e < 0)%Z -> (2 * (m mod 10 ^ (- e)) <> 10 ^ (- e))%Z -> dec_round_int m e = half_away m e.
+Proof. exact round_half_away_partial. Qed.
+Print Assumptions c19_round_half_away_partial.
+
+(** ... where Python's [round] goes to the even neighbour: 2.5 | round is 2, not 3. *)
+Theorem c19_round_half_away_refuted :
+  exists m e, (e < 0)%Z /\ round_f (FDec m e) None = Ok (FInt 2) /\ half_away m e = 3%Z.
+Proof. exact round_half_away_refuted. Qed.
+Print Assumptions c19_round_half_away_refuted.
